@@ -137,14 +137,15 @@ def miri(prop, leg, tier, seed, root, env):
 
     if not pending:
         return "inconclusive", None, "no miri shards configured"
-    first = pending.pop(0)
-    p = launch(first)
+    # compile once with a no-op shard, then run all real shards in parallel
+    p = launch(["warmup"])
     try:
-        so, se = p.communicate(timeout=leg.get("timeout_s", 5400))
+        so, se = p.communicate(timeout=1800)
     except subprocess.TimeoutExpired:
         p.kill()
-        return "inconclusive", None, "miri: watchdog on the first shard"
-    results.append((first, p.returncode, so, se))
+        return "inconclusive", None, "miri: watchdog while building"
+    if p.returncode != 0 or "VFMIRI" not in (so or ""):
+        return "inconclusive", None, "miri build/warm-up failed: %s" % (se or "")[-600:]
     while pending or procs:
         while pending and len(procs) < maxpar:
             sh = pending.pop(0)
